@@ -581,6 +581,7 @@ fn c08_one(ctx: &Ctx, t: usize, k: u64, frag: &mut Frag) {
     let mut rng = Rng::new(ctx.seed ^ 0x8888 ^ (t as u64) << 20 ^ k);
     let (xw, opsused) = sem::evolve(&c.schema, sh, &x0, &mut rng);
     let (expect, err_also_ok, mistyped_union) = sem::project2(&c.schema, sh, &xw);
+    let union_extra = sem::last_union_had_extra_unknown_fields();
     frag.eval();
     frag.distinct(fnv1a(format!("{}{}", tname(t), xw.hash64()).as_bytes()));
     for o in &opsused {
@@ -632,6 +633,9 @@ fn c08_one(ctx: &Ctx, t: usize, k: u64, frag: &mut Frag) {
             (Ok((Ok(_), _)), Err(_)) if err_also_ok => frag.count("not_judged.union_with_several_fields"),
             (Ok((Ok(v), _)), Err(why)) => viol(frag, "c08", &format!("{}|accepted-but-must-fail:{}|{}", wp.name(), why, op1), format!("{}: expected an error ({}) but decode returned {}", tname(t), why, trunc(&v.debug())), cj()),
             (Ok((Err(_), _)), Ok(_)) if err_also_ok => frag.count("required_with_default_absent.rejected(allowed)"),
+            // with keep_unknown_fields a union retains an unknown field AS its value: next to a known
+            // variant that is "several fields" to it (such a value comes from no writer schema)
+            (Ok((Err(_), _)), Ok(_)) if c.keep && union_extra => frag.count("keep.union_with_known_and_unknown_fields.rejected(allowed)"),
             (Ok((Err(e), _)), Ok(_)) => {
                 viol(frag, "c08", &format!("{}|rejected-well-formed|{}", wp.name(), op1), format!("{}: well-formed input from an evolved writer rejected: {} (evolution {:?})", tname(t), e, opsused), cj())
             }
@@ -691,7 +695,7 @@ impl Check for C08 {
             }
         }
         r.assume("evolution is applied to the value tree (equivalent to encoding under the writer schema); retyping is applied to struct fields and union variants, not to container element types");
-        for op in ["add_field", "remove_field", "retype_field", "reorder", "unknown_union_variant", "second_union_variant", "retype_union_variant"] {
+        for op in ["add_field", "remove_field", "retype_field", "reorder", "unknown_union_variant", "second_union_variant", "retype_union_variant", "unknown_fields_around_union_variant"] {
             r.floor(&format!("evolve.{}", op), 5);
         }
         r.floor("expected.ok", 50);
@@ -908,6 +912,8 @@ fn c19_one(ctx: &Ctx, t: usize, k: u64, frag: &mut Frag) {
     for wp in [WP::Binary, WP::Compact] {
         let (x, base, faults) = fault_inputs(ctx, t, k, wp);
         let base_hex = hex(&base);
+        // inputs whose sync decode failed without a live-byte change in its own three runs: soaked below
+        let mut soak: Vec<usize> = vec![];
         for (fi, f) in faults.iter().enumerate() {
             for is_async in [false, true] {
                 if is_async && fi % 4 != 0 {
@@ -917,6 +923,9 @@ fn c19_one(ctx: &Ctx, t: usize, k: u64, frag: &mut Frag) {
                 ord += 1;
                 if !monitors::driver::sub_mark_n(ord, &format!("c19 {} {} {} {}", who, tname(t), f.desc, hex(&f.bytes[..f.bytes.len().min(80)]))) {
                     continue;
+                }
+                if !is_async && soak.len() < 6 && fi % 7 == 3 {
+                    soak.push(fi);
                 }
                 let run = || -> Result<bool, ()> {
                     // returns Ok(decode_failed)
@@ -958,6 +967,42 @@ fn c19_one(ctx: &Ctx, t: usize, k: u64, frag: &mut Frag) {
                         &format!("leak|{}", via),
                         format!("[{}] {}: {} bytes stay live per failed decode (input {} bytes, fault {})", who, tname(t), per, f.bytes.len(), f.desc),
                         json!({"corpus": c.corpus, "config": c.config, "target": c.targets[t].name, "target_idx": t, "wp": wp.name(), "async": is_async, "fault": f.desc, "input_hex": hex(&f.bytes), "base_hex": base_hex, "value": x.render(160), "live_growth_per_decode": per}),
+                    );
+                    soak.retain(|i| *i != fi);
+                }
+            }
+        }
+        // soak: growth that is amortised (a pooled or cached buffer that grows by a few bytes per
+        // failed decode and doubles now and then) does not show in three runs of one input.
+        // A few failing inputs are decoded round-robin many times on this thread; the live-byte
+        // count after the first third is compared with the count at the end.
+        if !soak.is_empty() {
+            ord += 1;
+            if monitors::driver::sub_mark_n(ord, &format!("c19 soak {} {}", wp.name(), tname(t))) {
+                let rounds = 450usize;
+                let mut mid = 0isize;
+                let mut ok = true;
+                for r in 0..rounds {
+                    for fi in &soak {
+                        let bytes = &faults[*fi].bytes;
+                        if guarded(|| (o.decode)(wp, bytes).0.is_err()).is_err() {
+                            ok = false;
+                        }
+                    }
+                    if r == rounds / 3 {
+                        mid = alloc::snap().live;
+                    }
+                }
+                let end = alloc::snap().live;
+                frag.count(&format!("{}.soak_runs", wp.name()));
+                frag.add(&format!("{}.soak_decodes", wp.name()), (rounds * soak.len()) as u64);
+                if ok && end - mid > 256 {
+                    viol(
+                        frag,
+                        "c19",
+                        &format!("soak-growth|{}", via),
+                        format!("[{}] {}: live bytes grew by {} over {} failed decodes of {} inputs (amortised growth)", wp.name(), tname(t), end - mid, (rounds - rounds / 3) * soak.len(), soak.len()),
+                        json!({"corpus": c.corpus, "config": c.config, "target": c.targets[t].name, "target_idx": t, "wp": wp.name(), "base_hex": base_hex, "value": x.render(160), "growth": end - mid}),
                     );
                 }
             }
